@@ -13,3 +13,4 @@ import TLX.Props.C09
 import TLX.Props.C10
 import TLX.Props.C12
 import TLX.Props.C17
+import TLX.Props.C01Suites
